@@ -164,6 +164,7 @@ func (m *Machine) RunPath(item WorkItem, entry *ssa.Function, args []value, emit
 	m.chanSeq = 0
 	m.usedUF = false
 	m.fixedPos = 0
+	m.termLabel = ""
 	m.abortCh = make(chan struct{})
 	m.endCh = make(chan struct{})
 	m.endOnce = sync.Once{}
@@ -190,8 +191,12 @@ func (m *Machine) RunPath(item WorkItem, entry *ssa.Function, args []value, emit
 		case "violation":
 			// recorded already
 		case "budget":
-			res.Status = "inconclusive"
-			res.Reason = "instruction budget exceeded"
+			if m.termLabel != "" {
+				m.violation(nil, "nontermination", m.termLabel, "instruction bound exceeded after verifTerminates")
+			} else {
+				res.Status = "inconclusive"
+				res.Reason = "instruction budget exceeded"
+			}
 		case "decision-depth":
 			res.Status = "inconclusive"
 			res.Reason = "decision depth bound exceeded"
